@@ -12,6 +12,7 @@ package main
 
 import (
 	"fmt"
+	"os"
 	"math"
 	"math/big"
 	"strconv"
@@ -189,6 +190,9 @@ func exec(t []string) string {
 	if t[0] == "book" {
 		return execBook(t)
 	}
+	if t[0] == "v2split" {
+		return execV2(t)
+	}
 	p := parse(t)
 	bt := build(p)
 	a, cfg, payTo, candTo := bt.a, bt.cfg, bt.payTo, bt.candTo
@@ -221,6 +225,9 @@ func exec(t []string) string {
 //   a = ordinary block        -> the real accumulateReward
 //   s = regular round change  -> the real clearingDPOSReward(block, h, true)
 //   f = forced change         -> the real clearingDPOSReward(block, h, false) + forceChanged (what forceChange does)
+//   F = forced change         -> the real forceChange(h) itself (its guard, SnapshotByHeight, the clearing; the arbiter
+//                                rotation after the clearing fails on this synthetic object and is recovered) + the
+//                                history commit that IncreaseChainHeight performs afterwards
 // <voting> = 1: the heights are at/after CRVotingStartHeight.  Afterwards the real
 // blockchain.CheckCoinbaseArbitratorsReward judges a coinbase that pays every entry of the current
 // round reward (entry <cbk> raised by <cbdelta>; cbk = -1: honest; cbk = -2: the last recipient is
@@ -245,6 +252,7 @@ func execBook(t []string) string {
 	}
 	a.DPoSV2ActiveHeight = math.MaxUint32
 	a.History = utils.NewHistory(40)
+	a.Snapshots = map[uint32][]*state.CheckPoint{}
 	a.VerifSetAccumulativeReward(acc0)
 	var parts []string
 	h := uint32(2000000)
@@ -267,6 +275,17 @@ func execBook(t []string) string {
 			a.VerifAccumulateReward(blk)
 			acc, _, _, _ := a.VerifRewardState()
 			parts = append(parts, fmt.Sprintf("a:%d", int64(acc)))
+		case "F": // the real forceChange
+			err := a.VerifForceChange(blk)
+			acc, change, rr, fc := a.VerifRewardState()
+			es := "ok"
+			if err != nil {
+				es = "err"
+				if os.Getenv("HX_DEBUG") != "" {
+					fmt.Fprintln(os.Stderr, "forceChange:", err)
+				}
+			}
+			parts = append(parts, fmt.Sprintf("F:%s %v %d %d %s %d", es, fc, int64(acc), int64(change), sumRR(rr), len(rr)))
 		case "s", "f":
 			if err := a.VerifClearingDPOSReward(blk, kind == "s"); err != nil {
 				parts = append(parts, "c:err")
@@ -310,6 +329,200 @@ func execBook(t []string) string {
 	return strings.Join(parts, " ; ")
 }
 
+// v2split <reward> <sponsor> <ncrc> (o|p)(0|1)* <nvoters> [ <k> (votes lockDelta N)* ]*
+//
+// the DPoS 2.0 per-block split getDPoSV2RewardsV2 on a synthetic Arbiters: one producer (owner key,
+// node key) with the listed voters; current CRC arbiters, each on its own node (o) or standing on the
+// producer's node (p: council member without a claimed node) and present (1) or absent (0) in the next
+// turn's CRC set; sponsor = p (the producer's node key), c<i> (the node key of CRC arbiter i) or x
+// (unknown key).  N is the vote weight Fixed64(votes * log10(lockDelta/7200*10)) as Go computes it
+// (oracle value, re-checked here).
+//   -> "<entries> P=<producer owner> C0=.. V0=.." | n-mismatch
+type v2op struct {
+	reward  common.Fixed64
+	sponsor string
+	crc     []string
+	voters  [][][3]int64
+}
+
+func parseV2(t []string) v2op {
+	o := v2op{reward: f64(t[1]), sponsor: t[2]}
+	n := atoi(t[3])
+	i := 4
+	for k := 0; k < n; k++ {
+		o.crc = append(o.crc, t[i+k])
+	}
+	i += n
+	nv := atoi(t[i])
+	i++
+	for v := 0; v < nv; v++ {
+		k := atoi(t[i])
+		i++
+		var vs [][3]int64
+		for j := 0; j < k; j++ {
+			vs = append(vs, [3]int64{int64(f64(t[i])), int64(f64(t[i+1])), int64(f64(t[i+2]))})
+			i += 3
+		}
+		o.voters = append(o.voters, vs)
+	}
+	return o
+}
+
+func voteWeight(votes, delta int64) int64 {
+	w := math.Log10(float64(uint32(delta)) / 7200 * 10)
+	return int64(common.Fixed64(float64(common.Fixed64(votes)) * w))
+}
+
+func stakeAddrOf(ownerPK []byte) string {
+	oh, _ := state.GetOwnerKeyStandardProgramHash(ownerPK)
+	sh := common.Uint168FromCodeHash(byte(contract.PrefixDPoSV2), oh.ToCodeHash())
+	a, _ := sh.ToAddress()
+	return a
+}
+
+func execV2(t []string) string {
+	o := parseV2(t)
+	cfg := config.GetDefaultParams()
+	a := &state.Arbiters{State: &state.State{StateKeyFrame: state.NewStateKeyFrame()}, ChainParams: cfg}
+	a.CurrentCRCArbitersMap = map[common.Uint168]state.ArbiterMember{}
+	next := map[common.Uint168]state.ArbiterMember{}
+	prodOwner, prodNode := pubKey(10), pubKey(20)
+	votes := map[common.Uint168][]state.VerifVote{}
+	var voterAddr []string
+	for j, vs := range o.voters {
+		var u common.Uint168
+		u[0], u[1], u[2] = 0x3f, byte(j), 0x77
+		for _, v := range vs {
+			if voteWeight(v[0], v[1]) != v[2] {
+				return "n-mismatch"
+			}
+			votes[u] = append(votes[u], state.VerifVote{Votes: common.Fixed64(v[0]), BlockHeight: 1000, LockTime: uint32(1000 + v[1])})
+		}
+		if len(vs) == 0 {
+			votes[u] = nil
+		}
+		ad, _ := u.ToAddress()
+		voterAddr = append(voterAddr, ad)
+	}
+	prod := state.VerifNewProducer(prodOwner, prodNode, votes)
+	a.ActivityProducers[common.BytesToHexString(prodOwner)] = prod
+	a.NodeOwnerKeys[common.BytesToHexString(prodNode)] = common.BytesToHexString(prodOwner)
+	var crcAddr []string
+	var crcNode [][]byte
+	for i, k := range o.crc {
+		owner := pubKey(400 + i)
+		node := pubKey(300 + i)
+		if k[0] == 'p' {
+			node = prodNode
+		}
+		ct, _ := contract.CreateStandardContract(mustPK(owner))
+		mem := &crstate.CRMember{Info: payload.CRInfo{Code: ct.Code}, MemberState: crstate.MemberElected, DPOSPublicKey: node}
+		m, err := state.NewCRCArbiter(node, owner, mem, true)
+		if err != nil {
+			panic("harness: crc arbiter")
+		}
+		oh, _ := state.GetOwnerKeyStandardProgramHash(owner)
+		a.CurrentCRCArbitersMap[*oh] = m
+		if k[1] == '1' {
+			next[*oh] = m
+		}
+		crcAddr = append(crcAddr, stakeAddrOf(owner))
+		crcNode = append(crcNode, node)
+	}
+	a.VerifSetNextCRCArbiters(next)
+	var sponsor []byte
+	switch {
+	case o.sponsor == "p":
+		sponsor = prodNode
+	case o.sponsor == "x":
+		sponsor = pubKey(999)
+	default:
+		sponsor = crcNode[atoi(o.sponsor[1:])]
+	}
+	rw := a.VerifGetDPoSV2RewardsV2(o.reward, sponsor, 2000000)
+	get := func(k string) string {
+		if v, ok := rw[k]; ok {
+			return strconv.FormatInt(int64(v), 10)
+		}
+		return "-"
+	}
+	var b strings.Builder
+	fmt.Fprintf(&b, "%d P=%s", len(rw), get(stakeAddrOf(prodOwner)))
+	for i, ad := range crcAddr {
+		fmt.Fprintf(&b, " C%d=%s", i, get(ad))
+	}
+	for j, ad := range voterAddr {
+		fmt.Fprintf(&b, " V%d=%s", j, get(ad))
+	}
+	return b.String()
+}
+
+func genV2(g *hx.Gen) {
+	r := g.R
+	n := g.N(1500, 60000)
+	for i := 0; i < n; i++ {
+		reward := []int64{53272451, 26636226, 0, 1, 3, 7, 1 << 40, 175799087}[r.Intn(8)] + int64(r.Intn(3))
+		ncrc := r.Intn(4)
+		var crc []string
+		onProd := -1
+		for k := 0; k < ncrc; k++ {
+			kind := "o"
+			if onProd < 0 && r.Chance(35) {
+				kind, onProd = "p", k
+			}
+			crc = append(crc, kind+[]string{"0", "1", "1"}[r.Intn(3)])
+		}
+		sponsor := "p"
+		switch {
+		case r.Chance(10):
+			sponsor = "x"
+		case ncrc > 0 && r.Chance(40):
+			sponsor = fmt.Sprintf("c%d", r.Intn(ncrc))
+		}
+		var sb strings.Builder
+		fmt.Fprintf(&sb, "v2split %d %s %d", reward, sponsor, ncrc)
+		for _, c := range crc {
+			sb.WriteString(" " + c)
+		}
+		nv := r.Pick(0, 1, 2, 3, 5)
+		fmt.Fprintf(&sb, " %d", nv)
+		for v := 0; v < nv; v++ {
+			k := r.Pick(0, 1, 1, 2)
+			fmt.Fprintf(&sb, " %d", k)
+			for j := 0; j < k; j++ {
+				votes := int64(1+r.Intn(100000)) * int64(r.Pick(1, 100000000, 1000000))
+				delta := int64(r.Pick(7200, 7200, 72000, 720000, 7200+r.Intn(700000)))
+				fmt.Fprintf(&sb, " %d %d %d", votes, delta, voteWeight(votes, delta))
+			}
+		}
+		g.Emit("%s", sb.String())
+	}
+}
+
+// oracleV2: the per-block split never credits a negative amount and never more than the block's reward
+func oracleV2(t []string, out string) *hx.Violation {
+	o := parseV2(t)
+	if o.reward < 0 || out == "n-mismatch" {
+		return nil
+	}
+	sum := new(big.Int)
+	for _, f := range strings.Fields(out)[1:] {
+		v := f[strings.IndexByte(f, '=')+1:]
+		if v == "-" {
+			continue
+		}
+		x, _ := strconv.ParseInt(v, 10, 64)
+		if x < 0 {
+			return &hx.Violation{Kind: "v2-negative-payout", Detail: "the DPoS 2.0 split credits a negative amount: " + f}
+		}
+		sum.Add(sum, big.NewInt(x))
+	}
+	if sum.Cmp(big.NewInt(int64(o.reward))) > 0 {
+		return &hx.Violation{Kind: "v2-overpaid", Detail: fmt.Sprintf("the DPoS 2.0 split credits %s of a block reward of %d", sum, int64(o.reward))}
+	}
+	return nil
+}
+
 func mustPK(b []byte) *crypto.PublicKey {
 	pk, err := crypto.DecodePoint(b)
 	if err != nil {
@@ -334,6 +547,7 @@ func genVotes(r *hx.Rand) int64 {
 
 func gen(g *hx.Gen) {
 	defer genBook(g)
+	defer genV2(g)
 	r := g.R
 	n := g.N(5000, 200000)
 	for i := 0; i < n; i++ {
@@ -451,9 +665,9 @@ func genBook(g *hx.Gen) {
 		ns := 2 + r.Intn(5)
 		fmt.Fprintf(&sb, " %d", ns)
 		for k := 0; k < ns; k++ {
-			kind := []string{"a", "a", "a", "s", "f"}[r.Intn(5)]
+			kind := []string{"a", "a", "a", "s", "f", "F"}[r.Intn(6)]
 			if k == ns-1 && r.Chance(70) {
-				kind = []string{"s", "f"}[r.Intn(2)]
+				kind = []string{"s", "f", "F"}[r.Intn(3)]
 			}
 			fmt.Fprintf(&sb, " %s %d", kind, int64(r.Pick(0, 0, 100, 123456789))*int64(1+r.Intn(3)))
 		}
@@ -492,6 +706,10 @@ func oracleBook(t []string, out string) *hx.Violation {
 		kind := t[i+2*k]
 		fee, _ := strconv.ParseInt(t[i+2*k+1], 10, 64)
 		b := blockReward35(fee)
+		if strings.HasPrefix(parts[k], "F:") { // "F:<ok|err> <forceChanged> <acc> <change> <paid> <entries>": judged like a clearing
+			ff := strings.Fields(parts[k])
+			parts[k] = "c:" + strings.Join(ff[2:], " ")
+		}
 		f := strings.Fields(strings.TrimPrefix(strings.TrimPrefix(parts[k], "a:"), "c:"))
 		switch {
 		case kind == "a":
@@ -537,6 +755,9 @@ func oracleBook(t []string, out string) *hx.Violation {
 func oracle(t []string, out string) *hx.Violation {
 	if t[0] == "book" {
 		return oracleBook(t, out)
+	}
+	if t[0] == "v2split" {
+		return oracleV2(t, out)
 	}
 	if !strings.HasPrefix(out, "ok ") {
 		return nil
@@ -610,12 +831,18 @@ func nontrivial(t []string, out string) bool {
 	if t[0] == "book" {
 		return strings.Contains(out, "c:") && !strings.Contains(out, "c:err")
 	}
+	if t[0] == "v2split" {
+		return !strings.HasPrefix(out, "0 ")
+	}
 	return strings.HasPrefix(out, "ok ") && len(t) > 10
 }
 
 func bucket(t []string, out string) string {
 	if t[0] == "book" {
 		return "book/era" + t[1] + "/" + out[strings.LastIndex(out, "cb:"):]
+	}
+	if t[0] == "v2split" {
+		return "v2split/" + t[2][:1] + "/" + strings.Fields(out)[0]
 	}
 	f := strings.Fields(out)
 	return "dist/era" + t[1] + "/" + f[0]
